@@ -230,6 +230,22 @@ def install_gates(ch, payload_of_url):
             ch.gate("cleanup")
             return super().cleanup()
 
+    # Publishing by COPY instead of rename (shutil.move across file systems, shutil.copy*): the destination is opened, truncated
+    # and filled gradually.  shutil's own copy routine (this forked process's private copy of the module) is split like the
+    # download and the pickle: "copy" before the destination is touched, "copymid" when half of the bytes are there
+    # (seed C19l: staging in the system temp dir + shutil.move; only a data home on another file system shows it).
+    def copyfile(src, dst, *a, **kw):
+        ch.gate("copy")
+        with real_open(src, "rb") as fi:
+            data = fi.read()
+        with real_open(dst, "wb") as fo:
+            fo.write(data[:len(data) // 2])
+            fo.flush()
+            ch.gate("copymid")
+            fo.write(data[len(data) // 2:])
+        return dst
+    shutil.copyfile = copyfile
+
     base.urlretrieve = urlretrieve
     base.time = _Proxy(_time, sleep=sleep)
     base.os = _Proxy(os, makedirs=makedirs, rename=rename, replace=replace)
@@ -273,12 +289,29 @@ class Loader:
 # --------------------------------------------------------------------------------------------------------
 # the scheduler
 # --------------------------------------------------------------------------------------------------------
+_OTHER_FS = []
+
+
+def other_fs():
+    """Is /dev/shm usable and on another file system than the system temp dir?  (Where it is not, nothing is claimed.)"""
+    if not _OTHER_FS:
+        import tempfile
+        try:
+            _OTHER_FS.append(bool(os.path.isdir("/dev/shm") and os.access("/dev/shm", os.W_OK)
+                                  and os.stat("/dev/shm").st_dev != os.stat(tempfile.gettempdir()).st_dev))
+        except OSError:
+            _OTHER_FS.append(False)
+    return _OTHER_FS[0]
+
+
 class Scheduler:
     """One trace: a scratch data home, the network table, the loaders, the recorded events."""
 
     def __init__(self, root, tid, datasets, gz=False):
         self.tid = tid
         self.home = os.path.join(root, "t%d" % tid)
+        if tid % 5 == 0 and other_fs():      # every fifth data home lives on another file system than the system temp dir
+            self.home = os.path.join("/dev/shm", "verif-c19-%d-t%d" % (os.getpid(), tid))
         self.folder = os.path.join(self.home, FOLDER)
         os.makedirs(self.folder, exist_ok=True)
         self.ds = {d: FakeDataset(d, i + 1, gz) for i, d in enumerate(sorted(datasets))}
